@@ -77,7 +77,7 @@ PROPS["C06"] = dict(
     trusted_base=_CTL_TB, assumptions=_CTL_ASSUME + ["RetransTimeout x 256 fits int64"],
     level_text="Kernel-checked (Props/C06.lean) over Core.step: a request hitting a receive transaction is never dispatched (state unchanged, no driver call, output = "
                "cached response or nothing); keys differing in address or sequence never alias; expiry releases the entry; retention = T x (N+1) for all N in 0..255. "
-               "Tie: S-ctl 'trans' histories + exhaustive retention sweep on the real NewRxTransaction.",
+               "Tie: S-ctl 'trans' histories + exhaustive retention sweep on the real NewRxTransaction. retained_survives_tx_timeout — the retained response survives the expiry of a TRANSMIT transaction carrying the same address-sequence key (the two kinds share the key format).",
     level_note="Trusted: Lean kernel; model of the loop body and transaction.go (checked against the code each run). Real timers are replaced by injected expiry events; "
                "'byte-identical' is modelled as 'the cached message' and checked on the wire by the harness (identical rendering of the replayed datagram).",
 )
@@ -89,7 +89,7 @@ PROPS["C09"] = dict(
     trusted_base=_CTL_TB, assumptions=_CTL_ASSUME,
     level_text="Kernel-checked (Props/C09.lean) over Core.step/sendReq for every 32-bit counter value: wire sequence = low 24 bits = transaction key, so the response "
                "carrying the request's sequence number always matches; requests < 2^24 apart have distinct sequence numbers; expiry retransmits the identical message "
-               "while count < N, then abandons; at most 1+N transmissions; matching response releases; unmatched responses and stale expiries change nothing. Tie: S-ctl.",
+               "while count < N, then abandons; at most 1+N transmissions; matching response releases; unmatched responses and stale expiries change nothing. Tie: S-ctl. answered_then_stale_timeout — when the response overtakes the queued timeout of a timer that has fired, the request is retired and the stale timeout does nothing (no retransmission after the answer); tx_timeout_keeps_rx.",
     level_note="Trusted: Lean kernel; model of pfcp.go:273-283,153-175 and transaction.go:57-109 (checked against the code each run); timers are injected events.",
 )
 
